@@ -4,8 +4,8 @@ import "verif/vf"
 
 func Run(r *vf.Run) {
 	lawCases := runLaws(r)
-	de, dn := runDense(r, r.Pick(6000, 300000))
-	se, sn := runSparse(r, r.Pick(60, 1500))
+	de, dn := runDense(r, r.Pick(30000, 300000))
+	se, sn := runSparse(r, r.Pick(300, 1500))
 	r.Set("lattice_law_evaluations", lawCases)
 	r.Set("dense_instances", de)
 	r.Set("sparse_instances", se)
